@@ -451,7 +451,7 @@ func init() {
 		ID: "C09", Level: "model_checking",
 		Rule:     "all operation histories up to the stated depth over 25 builder calls (5 source positions incl. decreasing and large ones, 2 names, column advances, 7 strings mixing LF/CRLF/CR, line advance), each replayed on a fresh real SourceMapper in lock-step with a list model; mappings decoded by an independent Base64-VLQ decoder; plus every delta in [-2^20,2^20] and +-2^k(+-1), k<=31 per numeric field, all 70x70 name-index deltas across an unnamed segment; every history also with SourceMap() requested after every step (an observation must not change later output); long regular histories of 15..8193 segments around power-of-two sizes x line-break period x naming period x column advance; BFS with abstract-state dedup beyond the stateless depth. non-trivial = history with >=2 segments and a line break or a name",
 		Assume:   []string{"columns are counted per byte on ASCII input (non-ASCII column units are C08's subject)", "abstract-state dedup in the BFS part assumes the encoder's future depends only on (position, names, last segment, last name index)"},
-		QuickSec: 100, ThorSec: 900, Run: c09Run, Replay: c09Replay,
+		QuickSec: 300, ThorSec: 1800, Run: c09Run, Replay: c09Replay,
 		Evals: "histories", Nontriv: "nontrivial", States: "bfs_states", Trans: "bfs_transitions",
 	})
 }
